@@ -34,6 +34,9 @@ CHECKS = {
  "C10": ("exploration", "runtime pipeline monitor: generated programs with satisfying inputs are taken through the real build -> key generation -> run -> prove -> verify under random prover configurations; failures are classified with the bus monitor",
          "Programs from the generator (3/4 in the dialect that avoids known-broken constructs) x random packings, 8 field setups, plus the directed shapes named by the property.",
          "DESIGN.md §3 C10", TRUSTED),
+ "C12": ("fault_enumeration", "runtime fault injection with deviating hint executors: the decomposition hints of circuits using decompose_to_bits / decompose_ext_to_base_coeffs are replaced by alternatives satisfying the recomposition identity; traces are proven with the honest prover data and verified",
+         "Value classes (0, 1, small, around the 2^n-p slack, p-1, random) x widths x k in 1..3 for bits; three mass-moving families for coefficients, ALU and recompose-table paths; 8 field setups. Challenger gadgets are covered by C06.",
+         "DESIGN.md §3 C12", TRUSTED),
  "C13": ("exploration", "differential runtime monitor: random symbolic constraint DAGs (and the repo's real AIRs) are compiled by the real symbolic compiler / eval_folded_circuit, run, and compared with the native verifier constraint folder on random assignments",
          "Random AIRs with all leaf kinds, sharing by Arc and by re-evaluation, base/extension paths, LogUp lookups; pointer-keyed caches stressed by address reuse.",
          "DESIGN.md §3 C13", TRUSTED),
